@@ -65,8 +65,7 @@ def handleElim (r : Rd) : List String :=
   let (m, r) := r.flts (n * n); let (f, r) := r.flts n; let (u, r) := r.flts n; let (udp, r) := r.flts np
   let (fscale, _) := r.flt
   let M := rowsOf n m
-  let (udr, tau0) := elim M f ri pi udp
-  let tau := tau0.map (fun x => -x)
+  let (udr, tau) := elim M f ri pi udp
   [fmtFloats "O elim" (assemble n ri pi udr udp ++ tau ++ unpackTau n pi tau ++ [motionPower tau pi u, fscale])]
 
 /-- `a w p t c s` -/
